@@ -24,9 +24,6 @@ package py
 //@   ensures bigfit: is(self, *BigInt) && inInt64(den(self)) ==> err == nil && r == den(self)
 //@   ensures bigbig: is(self, *BigInt) && !inInt64(den(self)) ==> raisesExc(err, OverflowError)
 
-//@ iface Object.Type(self) (r)
-//@   pure
-//@   ensures nn: r != nil
 
 // ---- py/internal.go ----
 
@@ -139,3 +136,32 @@ package py
 //@   ensures len: len(a.Items) == len(old(a.Items)) - 1
 //@   ensures before: forall k in [0, i): a.Items[k] == old(a.Items[k])
 //@   ensures after: forall k in [i, len(a.Items)): a.Items[k] == old(a.Items[k + 1])
+
+// ---- py/range.go ----
+
+//@ spec rangeWF(r *Range) bool = r.Step != 0 && r.Length == range_len(r.Start, r.Stop, r.Step)
+
+//@ func computeRangeLength(start, stop, step) (r)
+//@   requires nz: step != 0
+//@   ensures exact: r == range_len(start, stop, step)
+//@   ensures nonneg: r >= 0
+
+//@ func computeItem(r, item) (res)
+//@   requires nn: r != nil
+//@   pure
+//@   ensures val: inInt64(r.Start + item * r.Step) ==> res == r.Start + item * r.Step
+
+//@ func computeNegativeIndex(index, length) (r)
+//@   ensures val: inInt64(norm(index, length)) ==> r == norm(index, length)
+
+//@ func (*Range).M__getitem__(r, key) (res, err)
+//@   requires nn: keyNN(key)
+//@   requires wf: rangeWF(r)
+//@   modifies *
+//@   pureif keyOK(key)
+//@   ensures idx: isIntLike(key) && err == nil ==> 0 <= norm(den(key), r.Length) && norm(den(key), r.Length) < r.Length && den(res) == r.Start + norm(den(key), r.Length) * r.Step
+//@   ensures idxok: isIntLike(key) && 0 <= norm(den(key), r.Length) && norm(den(key), r.Length) < r.Length ==> err == nil
+//@   ensures idxerr: isIntLike(key) && inInt64(den(key)) && !(0 <= norm(den(key), r.Length) && norm(den(key), r.Length) < r.Length) ==> raisesExc(err, IndexError)
+
+//@ func (*Range).M__len__(r) (res, err)
+//@   ensures val: err == nil && den(res) == r.Length
